@@ -104,7 +104,13 @@ func c11Build(r *rand.Rand, dir string) *c11Env {
 	md := &sbom.Metadata{}
 	gen.Populate(r, md.ProtoReflect(), o)
 	md.Id = "urn:uuid:doc-" + fmt.Sprint(r.Intn(1000))
+	if r.Intn(3) == 0 {
+		md.Id = "" // a document without identifier: nothing may fill it in on the operand
+	}
 	md.Version = "1"
+	if r.Intn(4) == 0 {
+		md.Version = ""
+	}
 	for _, dt := range md.DocumentTypes { // all three optional fields present (absent ones are C07's subject)
 		nm, ds, ty := "custom", "d", sbom.DocumentType_BUILD
 		if dt.Name == nil {
